@@ -93,7 +93,7 @@ class C19(object):
     rule = ("one run = (ystep, y0 within +-10 steps, sinogram height 15..64 odd/even, 0-180 or 0-360 scan with 20..90 "
             "angles, point grain inside the scanned disc, ROI mask, second sinogram and scalar for linearity, workers "
             "1..16 incl. more workers than angles, strategy, interleaving of the pool threads); distinct = distinct "
-            "(geometry digest, workers, schedule signature); non-trivial = workers >= 2; also: numpy in-place operations on shared arrays split at pre-emption points, sinograms and ROI masks in other memory layouts, empty projections, cubic/nearest interpolation, GrainSinogram parameter histories and a second object, PBPRefine.setmask on a stand-in dataset, non-square shapes in the conversions, iradon with shifts that differ per projection, the angle array shifted in place between two in-beam queries")
+            "(geometry digest, workers, schedule signature); non-trivial = workers >= 2; also: numpy in-place operations on shared arrays split at pre-emption points, sinograms and ROI masks in other memory layouts, empty projections, cubic/nearest interpolation, GrainSinogram parameter histories and a second object, PBPRefine.setmask on a stand-in dataset, non-square shapes in the conversions, iradon with shifts that differ per projection, the angle array shifted in place between two in-beam queries, GrainSinogram.build_sinogram on a peak table with several peaks per sinogram cell")
     components = {"real": ["ImageD11.sinograms.roi_iradon.run_iradon / iradon / _get_fourier_filter (unchanged Python)",
                            "ImageD11.sinograms.geometry (all conversion functions, sino_shift_and_pad, dty_values_grain_in_beam, "
                            "dty_to_dtyi, step_grid_from_ybincens)", "ImageD11.sinograms.sinogram.GrainSinogram (update_recon_parameters, recon)",
@@ -153,7 +153,7 @@ class C19(object):
                         "workers": rnd.choice([1, 1, 2, 3])} for _ in range(rnd.randint(1, 3))]
         return {"entry": "run_iradon", "ncores": ncores, "ystep": ystep, "ny": ny, "full": full, "nang": nang, "ymin": ymin,
                 "zero_cols": rnd.choice(["none", "none", "halves", "random", "random", "one", "cancel"]), "segments": rnd.choice([1, 2, 2, 3, 5]),
-                "halfmask_story": rnd.random() < 0.15, "varshift": rnd.choice([None, None, None, "jitter", "drift"]), "h5_roundtrip": rnd.random() < 0.5,
+                "halfmask_story": rnd.random() < 0.15, "build_sino": (rnd.getrandbits(31) + 1) if rnd.random() < 0.25 else 0, "varshift": rnd.choice([None, None, None, "jitter", "drift"]), "h5_roundtrip": rnd.random() < 0.5,
                 "pbp_setmask": rnd.random() < 0.2, "interp_kind": rnd.choice([None, None, None, "cubic", "nearest"]),
                 "two_objects": rnd.random() < 0.5, "mask_layout": rnd.choice(["c", "c", "f", "t", "view"]),
                 "nonsquare": [rnd.randint(0, 9), rnd.randint(0, 9)],
@@ -273,6 +273,74 @@ class C19(object):
             return V("grain-misplaced", "PBPRefine.setmask: the grain at sample (%.3f, %.3f) is reconstructed at (%d, %d), the geometry "
                                         "predicts (%.2f, %.2f): %.2f px (ny %d, y0 %.2f steps from the first row)" %
                      (sx, sy, mi, mj, ri, rj, dist, ny, (y0 - ymin) / ystep))
+        return None
+
+    def build_sino_story(self, desc, ny, ymin, ystep, y0, sx, sy, meas, V):
+        """GrainSinogram.build_sinogram on a peak table of one point grain: several reflections (hkl, sign of eta), each seen at
+        several angles, some of them on consecutive frames at the same dty step (several peaks in one sinogram cell).  Every
+        projection must hold the summed intensity per dty step (normalised to its maximum) and the intensity-weighted mean angle."""
+        import types
+        import ImageD11.grain
+        from ImageD11.sinograms import sinogram, dataset
+        from ImageD11 import columnfile
+        geo = self.geo
+        g = np.random.default_rng(desc["build_sino"])
+        a0 = 4.0
+        nref = int(g.integers(2, 9))
+        hkls = set()
+        while len(hkls) < nref:
+            h_ = tuple(int(x) for x in g.integers(-3, 4, 3))
+            if h_ != (0, 0, 0):
+                hkls.add(h_)
+        rows = []
+        for h_ in sorted(hkls):
+            for sgn in ([1.0, -1.0] if g.random() < 0.5 else [float(g.choice([1.0, -1.0]))]):
+                for _ in range(int(g.integers(1, 5))):
+                    om_ = float(np.round(g.uniform(-180, 180), 2))
+                    dt_ = float(geo.dty_values_grain_in_beam(sx, sy, y0, np.array([om_]))[0])
+                    k_ = int(np.clip(np.round((dt_ - ymin) / ystep), 0, ny - 1))
+                    reps = 1 + int(g.random() < 0.4) + int(g.random() < 0.15)     # the same reflection on consecutive frames
+                    for q in range(reps):
+                        rows.append((h_, sgn, om_ + 0.05 * q, ymin + k_ * ystep, float(np.round(g.uniform(1, 1000), 1))))
+        H = np.array([r[0] for r in rows], float)
+        cols = {"gx": H[:, 0] / a0, "gy": H[:, 1] / a0, "gz": H[:, 2] / a0,
+                "eta": np.array([r[1] * g.uniform(10, 170) for r in rows]), "omega": np.array([r[2] for r in rows]),
+                "dty": np.array([r[3] for r in rows]), "sum_intensity": np.array([r[4] for r in rows])}
+        try:
+            with contextlib.redirect_stdout(io.StringIO()):
+                gs = sinogram.GrainSinogram(ImageD11.grain.grain(np.eye(3) * a0), dataset.DataSet())
+                gs.ds = types.SimpleNamespace(ybincens=ymin + np.arange(ny) * ystep, ystep=ystep)
+                gs.cf_for_sino = columnfile.colfile_from_dict(cols)
+                gs.build_sinogram()
+        except Exception as e:
+            if runner.is_harness_exception(e):
+                raise
+            return V("raises", "GrainSinogram.build_sinogram raised %s: %s" % (type(e).__name__, e))
+        meas["build_sinogram_runs"] = 1
+        want = {}
+        for (h_, sgn, om_, dt_, I_) in rows:
+            key = (h_[0], h_[1], h_[2], int((int(sgn) + 1) // 2))
+            k_ = int(np.round((dt_ - ymin) / ystep))
+            w = want.setdefault(key, [np.zeros(ny), 0.0, 0.0])
+            w[0][k_] += I_
+            w[1] += om_ * I_
+            w[2] += I_
+        hk = np.asarray(gs.hkle)
+        ss = np.asarray(gs.ssino, float)
+        if hk.shape[1] != len(want) or ss.shape != (ny, len(want)):
+            return V("sinogram-differs", "build_sinogram: %d projections of %s dty steps for %d reflections seen over %d steps" %
+                     (hk.shape[1], ss.shape[0], len(want), ny))
+        meas["sinogram_cells_with_several_peaks"] = int(sum(1 for v in want.values() for x in v[0] if x > 0) < len(rows))
+        for r in range(hk.shape[1]):
+            key = tuple(int(x) for x in hk[:, r])
+            if key not in want:
+                return V("sinogram-differs", "build_sinogram: projection %d is labelled %s, no such reflection in the table" % (r, key))
+            row, so, si = want[key]
+            got_row = ss[:, r] * float(gs.proj_scale[r])
+            if not np.allclose(got_row, row, rtol=1e-4, atol=1e-3) or abs(float(gs.sinoangles[r]) - so / si) > 0.02:
+                return V("sinogram-differs", "build_sinogram, reflection %s: angle %.3f (intensity-weighted mean of its peaks %.3f), "
+                                            "intensities per step differ by up to %.3g" %
+                         (key, float(gs.sinoangles[r]), so / si, float(np.abs(got_row - row).max())))
         return None
 
     def grainsino_history(self, desc, sino, omega, ny, ymin, ystep, y0, sx, sy, R, meas, V):
@@ -645,6 +713,8 @@ class C19(object):
                                                 "(shift %.2f, pad %d)" % (kind, mi, mj, ki, kj, dk, shift, pad))
         if viol is None and desc.get("pbp_setmask") and R >= 3:
             viol = self.pbp_setmask(desc, omega, ny, ymin, ystep, y0, sx, sy, meas, V)
+        if viol is None and desc.get("build_sino"):
+            viol = self.build_sino_story(desc, ny, ymin, ystep, y0, sx, sy, meas, V)
         if viol is None and desc.get("gs_hist"):
             viol = self.grainsino_history(desc, sino, omega, ny, ymin, ystep, y0, sx, sy, R, meas, V)
         sig = "%s/%s/%s" % (enginea.sha(ystep, ny, desc["full"], desc["nang"], desc["y0_off_steps"], desc["r_frac"], desc["phi"]),
